@@ -1504,6 +1504,60 @@ fn run_meta_repeat(r: &Req) -> String {
     format!("ok status={:?} iters={} par={}", a.status, a.iters, nthreads)
 }
 
+// ---- presolve / equilibration / cone-split toggles on data with a huge NEGATIVE bound -------
+// x ≤ u, −x ≤ −l with one lower bound l_j ≥ 1e20: the box is empty (strongly primal infeasible).
+// Only right-hand sides at or ABOVE +infinity may be dropped by presolve; every configuration
+// must reach the same verdict class.
+fn run_meta_neginf(r: &Req) -> String {
+    let seed = r.u("seed") as u64;
+    let mut rng = Rng::new(seed ^ 0xE05);
+    let n = 2 + rng.below(4);
+    let mut P = vec![vec![0.0; n]; n];
+    let quad = rng.bool(0.7);
+    for i in 0..n {
+        P[i][i] = if quad { rng.uniform(0.5, 2.0) } else { 0.0 };
+    }
+    let q: Vec<f64> = (0..n).map(|_| rng.normal()).collect();
+    let mut A = vec![vec![0.0; n]; 2 * n];
+    let mut b = vec![0.0; 2 * n];
+    for i in 0..n {
+        A[i][i] = 1.0;
+        A[n + i][i] = -1.0;
+        b[i] = rng.uniform(0.5, 3.0);
+        b[n + i] = rng.uniform(0.5, 3.0);
+    }
+    let j = rng.below(n);
+    let mag = *rng.choose(&[1e20, 2e20, 1e21, 3.7e22]);
+    b[n + j] = -mag;
+    let splits: Vec<Vec<SupportedConeT<f64>>> = vec![
+        vec![NonnegativeConeT(2 * n)],
+        vec![NonnegativeConeT(n), NonnegativeConeT(n)],
+        vec![NonnegativeConeT(n + j), NonnegativeConeT(n - j)],
+    ];
+    let mut classes = vec![];
+    for cones in &splits {
+        for presolve in [true, false] {
+            for equil in [true, false] {
+                let pr = Prob { n, P: P.clone(), q: q.clone(), A: A.clone(), b: b.clone(), cones: cones.clone() };
+                let mut st = base_settings();
+                st.presolve_enable = presolve;
+                st.equilibrate_enable = equil;
+                let o = solve(&pr, false, &st);
+                classes.push((class_of(o.status), presolve, equil, cones.len()));
+            }
+        }
+    }
+    let c0 = classes[0].0;
+    if let Some(bad) = classes.iter().find(|c| c.0 != c0) {
+        return format!("FAIL verdict-class-differs {}(presolve={},equil={},cones={}) vs {}(presolve=true,equil=true,cones=1) lower-bound={:e}",
+            bad.0, bad.1, bad.2, bad.3, c0, mag).replace(' ', "_");
+    }
+    if c0 == "optimal" {
+        return format!("FAIL empty-box-reported-optimal lower-bound={:e}", mag).replace(' ', "_");
+    }
+    format!("ok class={} undecided=0 n={}", c0, n)
+}
+
 // ======================================================================= registry
 
 pub fn channels() -> Vec<Channel> {
@@ -1526,6 +1580,8 @@ pub fn channels() -> Vec<Channel> {
             rust_fn: "DefaultKKTSystem::solve (assembly around the linear solver) + _csc_quad_form", lean: "KktSystem.solveAssemble / C06.reduced_solve_is_newton" },
         Channel { name: "meta.variants", tol: Tol::Exact, run: run_meta_variants, oracle: Some(oracle_meta), modelled: false,
             rust_fn: "DefaultSolver::new + solve over equivalent formulations/settings", lean: "C05.weak_duality_slack_tol_all_cones / objectives_agree_within_slack / contradictory_verdicts_{pinf,dinf}_slack / map_back_sound (soundness of the pair oracle, all seven cone kinds)" },
+        Channel { name: "meta.neginf", tol: Tol::Exact, run: run_meta_neginf, oracle: Some(oracle_meta), modelled: false,
+            rust_fn: "DefaultSolver::new + solve: presolve / equilibration / cone split toggled on a box with one lower bound ≥ 1e20", lean: "C05.same_collapsed_same_solver (split/merge) ; C09 drop criterion" },
         Channel { name: "meta.repeat", tol: Tol::Exact, run: run_meta_repeat, oracle: Some(oracle_meta), modelled: false,
             rust_fn: "DefaultSolver::solve repeated / after poisoning / on 2-8 threads", lean: "C05.full_solve_reads_only / full_solve_stale_field / full_solve_linear_solver_only / solve_is_function_of_data" },
     ]
@@ -1718,6 +1774,11 @@ fn generate(s: &mut Session) {
         let (l, o) = undecided[0].clone();
         s.fail("meta.variants", l, o, format!(
             "{} of {} problems have a variant ending without a verdict (allowance {})", undecided.len(), nv, allowance));
+    }
+    for _ in 0..s.budget(24, 400) {
+        let seed = s.rng.next_u64() >> 12;
+        s.submit(Line::new("meta.neginf").u("seed", seed as usize).done());
+        s.count("neginf-box");
     }
     let nr = s.budget(72, 1200);
     for k in 0..nr {
